@@ -7,6 +7,7 @@ From V.spec Require Import SpecTape SpecDisk.
 From V.model Require Import MCassette MDisk.
 From V.model Require MText MValues MOperands MProgram.
 From V.spec Require Spec6809.
+From V.model Require MVirtualFile.
 From Coq Require Import Extraction ExtrOcamlBasic.
 Extraction Language OCaml.
 
@@ -32,7 +33,15 @@ Definition x_regpair_legal := Spec6809.regpair_legal.
 Definition x_opcode_entry := Spec6809.opcode_entry.
 Definition x_all_opcodes := Spec6809.all_opcodes.
 
+Definition x_vf_sniff := MVirtualFile.sniff.
+Definition x_vf_store := MVirtualFile.store.
+Definition x_vf_convert := MVirtualFile.convert.
+Definition x_vf_image_after := MVirtualFile.image_after.
+Definition x_vf_file_util := MVirtualFile.file_util.
+Definition x_vf_asm_save := MVirtualFile.asm_save.
+
 Extraction "model.ml"
+  x_vf_sniff x_vf_store x_vf_convert x_vf_image_after x_vf_file_util x_vf_asm_save
   x_asm x_v_int x_decode x_canon x_regpair_legal x_opcode_entry x_all_opcodes
   x_cas_write x_cas_parse x_cas_list
   x_dsk_add x_dsk_image x_dsk_fsck x_dsk_files x_dsk_list x_dsk_free x_dsk_needed x_dsk_default_order x_dsk_layout_ok.
